@@ -19,6 +19,7 @@ import (
 	"fmt"
 
 	"golang.org/x/net/http2"
+	"golang.org/x/net/http2/hpack"
 )
 
 // queuedFrame stores frames that belong to a stream and need to be kept in order. The need for
@@ -83,7 +84,12 @@ type queuedHeaderFrame struct {
 	streamID  uint32
 	endStream bool
 	priority  http2.PriorityParam
-	chunks    [][]byte
+	headers   []hpack.HeaderField
+
+	// encode HPACK-encodes headers and splits them into frame-sized chunks. It is called by send so
+	// that header blocks are encoded in the order in which they reach the connection.
+	encode func(headers []hpack.HeaderField, firstFrameOverhead uint32) ([][]byte, error)
+	chunks [][]byte // set by send
 }
 
 func (f *queuedHeaderFrame) StreamID() uint32 {
@@ -95,6 +101,14 @@ func (*queuedHeaderFrame) flowControlSize() int {
 }
 
 func (f *queuedHeaderFrame) send(dest *http2.Framer) error {
+	var overhead uint32
+	if !f.priority.IsZero() {
+		overhead = headersPriorityMetadataLength
+	}
+	var err error
+	if f.chunks, err = f.encode(f.headers, overhead); err != nil {
+		return fmt.Errorf("sending header %v: %w", f, err)
+	}
 	if err := dest.WriteHeaders(http2.HeadersFrameParam{
 		StreamID:      f.streamID,
 		BlockFragment: f.chunks[0],
@@ -131,7 +145,11 @@ func (f *queuedHeaderFrame) String() string {
 type queuedPushPromiseFrame struct {
 	streamID  uint32
 	promiseID uint32
-	chunks    [][]byte
+	headers   []hpack.HeaderField
+
+	// encode is called by send, see queuedHeaderFrame.
+	encode func(headers []hpack.HeaderField, firstFrameOverhead uint32) ([][]byte, error)
+	chunks [][]byte // set by send
 }
 
 func (f *queuedPushPromiseFrame) StreamID() uint32 {
@@ -143,6 +161,10 @@ func (*queuedPushPromiseFrame) flowControlSize() int {
 }
 
 func (f *queuedPushPromiseFrame) send(dest *http2.Framer) error {
+	var err error
+	if f.chunks, err = f.encode(f.headers, pushPromiseMetadataLength); err != nil {
+		return fmt.Errorf("sending push promise %v: %w", f, err)
+	}
 	if err := dest.WritePushPromise(http2.PushPromiseParam{
 		StreamID:      f.streamID,
 		PromiseID:     f.promiseID,
